@@ -18,7 +18,7 @@ RULE = ("Exhaustive: every string of length <=3 (thorough: <=4 for the mutation 
         "key, update with mapping / pair list / kwargs, setdefault on new/existing key), as cookie name, as cookie value and as redirect target "
         "(str and URL object), each response emitted through both server emulators; plus random op sequences (<=6 mutations) and random longer "
         "strings. Non-trivial = string containing CR, LF, NUL, ';', ',', '=', a quote, backslash or a non-ASCII character; distinct = (string, position).")
-RULE += ' Also: the emitted Location, with its percent-escapes undone, is the text asked for (escaped, not dropped); hostile text in the authority part of redirect targets, stored under the header names the library sets itself, cookie name with empty value / delete_cookie, and Cookie attributes assigned after construction (response.cookies[-1].value = ...).'
+RULE += ' Also: the mutations applied to the header mapping of a response object and of the response a middleware handler gets from next_call(), then sent; the emitted Location, with its percent-escapes undone, is the text asked for (escaped, not dropped); hostile text in the authority part of redirect targets, stored under the header names the library sets itself, cookie name with empty value / delete_cookie, and Cookie attributes assigned after construction (response.cookies[-1].value = ...).'
 ASSUMPTIONS = [
     "constructor-supplied headers and the cookie path/domain attributes are outside the statement's quantifier and are kept clean",
     "a name/value with code points above U+00FF may fail to be emitted (UnicodeEncodeError): nothing is smuggled, so that is tolerated",
@@ -109,6 +109,66 @@ def check_mutation(ctx, path, key, value, where):
             ctx.violation(f"mapping-changed-by-rejected-mutation|{path}", case, f"{before!r} -> {dict(h.items())!r}")
     if not bad and raised is not None:
         ctx.violation(f"clean-mutation-rejected|{path}", case, repr(raised))
+
+
+def check_held_mutation(ctx, path, key, value, where, holder):
+    """the same mutations on the header mapping of a RESPONSE object - one the application built (holder='response') or the one a
+    middleware handler receives from next_call() (holder='next-response') - followed by sending the response"""
+    from baize import asgi, wsgi
+    bad = is_bad(key) or is_bad(value)
+    if path in ("setdefault-existing",) and is_bad(key):
+        return
+    for iface, ns in (("wsgi", wsgi), ("asgi", asgi)):
+        case = {"path": path, "key": key, "value": value, "hostile": where, "mapping_of": holder, "iface": iface}
+        seen = {}
+
+        def work(h):
+            if path in ("append-existing", "setitem-existing", "setdefault-existing") and not is_bad(key):
+                h[key] = "v0"
+            try:
+                mutate(h, path, key, value)
+                seen["raised"] = None
+            except Exception as e:  # noqa
+                seen["raised"] = e
+        if holder == "response":
+            resp = ns.PlainTextResponse("x")
+            work(resp.headers)
+            app = resp
+        else:
+            if iface == "wsgi":
+                def inner(environ, start_response):
+                    start_response("200 OK", [("Content-Type", "text/plain"), ("X-Pre", "0")])
+                    return [b"x"]
+
+                @ns.middleware
+                def m(request, next_call):
+                    response = next_call(request)
+                    work(response.headers)
+                    return response
+            else:
+                async def inner(scope, receive, send):
+                    await send({"type": "http.response.start", "status": 200, "headers": [(b"content-type", b"text/plain"), (b"x-pre", b"0")]})
+                    await send({"type": "http.response.body", "body": b"x"})
+
+                @ns.middleware
+                async def m(request, next_call):
+                    response = await next_call(request)
+                    work(response.headers)
+                    return response
+            app = m(inner)
+        if iface == "wsgi":
+            r = drivers.run_wsgi(app, drivers.to_environ(drivers.Req()))
+            hdrs = [(str(k), str(v)) for k, v in (r.headers or [])]
+        else:
+            r = drivers.run_asgi(app, drivers.to_scope(drivers.Req()))
+            hdrs = [(k.decode("latin-1"), v.decode("latin-1")) for k, v in (r.headers or [])]
+        ctx.mon("mutation-on-a-response's-mapping")
+        if isinstance(r.exc, contracts.HeaderHygieneBroken) or any(is_bad(k) or is_bad(v) for k, v in hdrs):
+            ctx.violation(f"emitted-header-with-control-char|{holder}|{path}|{iface}", case, repr(hdrs)[:200])
+        elif bad and path != "setdefault-existing" and "raised" in seen and seen["raised"] is None:
+            ctx.violation(f"no-error-at-mutation|{holder}|{path}|in-{where}|{iface}", case, "mutation with CR/LF/NUL did not raise")
+        elif not bad and seen.get("raised") is not None:
+            ctx.violation(f"clean-mutation-rejected|{holder}|{path}|{iface}", case, repr(seen["raised"]))
 
 
 def emit(resp_factory):
@@ -328,6 +388,13 @@ def check_sequence(ctx, rng):
 def run(ctx):
     contracts.arm_list_headers()
     rng = ctx.rng("c13")
+    # ---- the FIRST use in a fresh server process, pre-empted by a second request (one child process per switch point, vf/firstuse.py)
+    if ctx.shard == 0:
+        from vf import firstuse
+        firstuse.explore(ctx, "cookie", "cookie", max_points=12 if ctx.quick else 400)
+        ctx.case(("first-use", "cookie"))
+    else:
+        ctx.mon("first-use-pre-empted(fresh process)", 0)
     maxlen = 3
     top = 3 if ctx.quick else 4
     carriers = ["{}", "v{}", "{}v", "a{}b"]
@@ -346,6 +413,12 @@ def run(ctx):
                 check_mutation(ctx, path, "x-" + text, "v", "name")
                 ctx.case_enum(nt)
                 ctx.case_enum(nt)
+            if ci == 0 and (nt or idx % 5 == 0):
+                path = PATHS[idx % len(PATHS)]
+                for holder in ("response", "next-response"):
+                    check_held_mutation(ctx, path, "x-test", text, "value", holder)
+                    check_held_mutation(ctx, path, "x-" + text, "v", "name", holder)
+                    ctx.case_enum(nt)
             if ci == 0:
                 # header names that the library itself reads or writes must be validated like any other
                 for hname in ("Content-Length", "content-type", "Set-Cookie", "Location", "Content-Range", "ETag", "Vary", "Cache-Control"):
@@ -411,6 +484,10 @@ def run(ctx):
 
 
 def replay(ctx, case):
+    if "mapping_of" in case:
+        check_held_mutation(ctx, case["path"], case["key"], case["value"], case["hostile"], case["mapping_of"])
+        ctx.case(1)
+        return
     contracts.arm_list_headers()
     if "path" in case:
         check_mutation(ctx, case["path"], case["key"], case["value"], case.get("hostile", "value"))
